@@ -127,21 +127,32 @@ CallBeforeLastOperand(args) == \E i \in 1..(Len(args) - 1) : args[i].t = "call" 
 \* object is relocated before its operands are collected; their names would be searched from the new place)
 NamesInOperands(args) == UNION {NamesIn(args[i]) : i \in 1..Len(args)}
 NamesUnderRelocatedDecl(t) == t.k = "decl" /\ ~SingleSeg(t.f) /\ NamesInOperands(t.args) # {}
-\* D14: a Buffer inside the size term of a Buffer (a deferred block nested in a deferred term)
+\* D14: a Buffer nested in a deferred term with something after it: inside the size term of a Buffer, or (below)
+\* inside a While as an argument that is followed by further arguments
 RECURSIVE HasBuffer(_)
 HasBuffer(x) == x.t = "buffer" \/ (x.t \in Nested /\ \E i \in 1..Len(x.a) : HasBuffer(x.a[i]))
 RECURSIVE BufferInBufferSize(_)
 BufferInBufferSize(x) == \/ x.t = "buffer" /\ \E i \in 1..Len(x.a) : HasBuffer(x.a[i])
                          \/ x.t \in Nested /\ \E i \in 1..Len(x.a) : BufferInBufferSize(x.a[i])
-\* D15: a name inside a Buffer size term that designates a unit of a BankField of the same table (Buffer sizes
-\* and BankFields are both read in the deferred pass, in TREE order: the unit may not exist yet when the size
+\* D14 (second form): inside a While, a Buffer inside the arguments of an invocation, or a Buffer anywhere in a
+\* block nested in the While body (only a direct operand of a statement of the outermost While body is read back)
+RECURSIVE BufferInCallArgs(_)
+BufferInCallArgs(x) == \/ x.t = "call" /\ \E i \in 1..Len(x.a) : HasBuffer(x.a[i])
+                       \/ x.t \in Nested /\ \E i \in 1..Len(x.a) : BufferInCallArgs(x.a[i])
+\* D15: a name inside a deferred term (Buffer size, While predicate or body) that designates a unit of a BankField
+\* of the same table (these terms and BankFields are all read in the deferred pass, in TREE order: the unit may not exist yet when the size
 \* is read - always when the BankField is written later, and also when merges put the Buffer ahead of it)
 RECURSIVE NamesInBufferSize(_)
 NamesInBufferSize(x) == IF x.t = "buffer" THEN UNION {NamesIn(x.a[i]) : i \in 1..Len(x.a)}
                         ELSE IF x.t \in Nested THEN UNION {NamesInBufferSize(x.a[i]) : i \in 1..Len(x.a)} ELSE {}
-\* D5/D6: operator expressions; D6/D7: While
+\* D5: an operator expression in a statement that is read in the flat first pass (outside every While)
+\* D6: a name or invocation inside an operator expression or inside the size term of a Buffer, inside a While
+\*     (predicate or body): the operator / Buffer is not yet attached to the tree when its operands are read
+\* D7: While loops (known sub-defect: anything that follows a nested If / Else / While block in a While body is dropped)
 UsesOperator(t) == t.k \in {"stmt", "if", "while"} /\ \E i \in 1..Len(t.x) : HasOp(t.x[i])
-UsesWhile(t)    == t.k = "while"
+RECURSIVE NamesInOperators(_)
+NamesInOperators(x) == IF x.t \in {"op", "buffer"} THEN UNION {NamesIn(x.a[i]) : i \in 1..Len(x.a)}   \* (and inside a Buffer's size term)
+                       ELSE IF x.t \in Nested THEN UNION {NamesInOperators(x.a[i]) : i \in 1..Len(x.a)} ELSE {}
 
 (* ------------------------------------------------------------------ the loader *)
 \* st: [seq (tokens read), bankunits (units of this table's BankFields with the position of the BankField, see D15),
@@ -152,7 +163,12 @@ Cur(st)      == IF st.stack = <<>> THEN <<>> ELSE Last(st.stack).p
 InMethod(st) == \E i \in 1..Len(st.stack) : st.stack[i].t = "method"
 Fail(st, why) == [st EXCEPT !.err = why]
 \* stack entry: scope path, kind of block, statements seen, late / off (see D1b)
-PushE(st, p, t, late, off) == [st EXCEPT !.stack = Append(@, [p |-> p, t |-> t, cnt |-> 0, late |-> late, off |-> off])]
+PushE(st, p, t, late, off) == [st EXCEPT !.stack = Append(@, [p |-> p, t |-> t, cnt |-> 0, nb |-> FALSE, late |-> late, off |-> off])]
+InWhile(st) == \E i \in 1..Len(st.stack) : st.stack[i].t = "while"
+\* the block being filled is nested (If / Else / While) in the body of a While
+NestedInWhile(st) == \E i \in 1..Len(st.stack) : st.stack[i].t = "while" /\ i < Len(st.stack)
+\* a nested block has already been closed in the block that is being filled
+AfterNestedBlock(st) == st.stack # <<>> /\ Last(st.stack).nb
 Push(st, p, t) == PushE(st, p, t, TopLate(st), TopOff(st) \/ (t \in {"obj", "method"} /\ Displaces(st, p)))
 
 NameTriggers(st, t) ==
@@ -162,18 +178,22 @@ NameTriggers(st, t) ==
   \cup (IF RootScopeDirective(t) THEN {"D8"} ELSE {})
   \cup (IF CaretUnderLateScope(st, t.f) THEN {"D1b"} ELSE {})
 TermTriggers(st, t) ==
-  (IF UsesOperator(t) \/ (t.k = "decl" /\ \E i \in 1..Len(t.x) : HasOp(t.x[i])) THEN {"D5"} ELSE {})
+  (IF (UsesOperator(t) /\ ~InWhile(st) /\ t.k # "while") \/ (t.k = "decl" /\ \E i \in 1..Len(t.x) : HasOp(t.x[i])) THEN {"D5"} ELSE {})
+  \cup (IF (InWhile(st) \/ t.k = "while") /\ \E i \in 1..Len(t.x) : NamesInOperators(t.x[i]) # {} THEN {"D6"} ELSE {})
+  \* (the sub-shapes of While that the pinned parser reads correctly are not yet delimited: a statement after a nested
+  \*  block, Buffers in arguments or nested blocks, names in operators / Buffer sizes all fail, and random bodies still
+  \*  lose invocations; until they are, every While is excluded)
+  \cup (IF InWhile(st) \/ t.k = "while" THEN {"D7"} ELSE {})
   \cup (IF t.k = "decl" /\ CallBeforeLastOperand(t.x) THEN {"D12"} ELSE {})
-  \cup (IF \E i \in 1..Len(t.x) : BufferInBufferSize(t.x[i]) THEN {"D14"} ELSE {})
+  \cup (IF \E i \in 1..Len(t.x) : BufferInBufferSize(t.x[i]) \/ ((InWhile(st) \/ t.k = "while") /\ (BufferInCallArgs(t.x[i]) \/ (NestedInWhile(st) /\ HasBuffer(t.x[i])))) THEN {"D14"} ELSE {})
   \cup (IF t.k = "decl" /\ ~SingleSeg(t.f) THEN {"D13"} ELSE {})
-  \cup (IF UsesWhile(t) \/ \E i \in 1..Len(st.stack) : st.stack[i].t = "while" THEN {"D7"} ELSE {})
   \cup UNION {UNION { (IF UsesCaretInObjectScope(st.ns, Cur(st), f) THEN {"D1"} ELSE {})
                       \cup (IF PathThroughObject(st.ns, Cur(st), f, f.segs) THEN {"D2c"} ELSE {})
                       : f \in NamesIn(t.x[i])} : i \in 1..Len(t.x)}
 
 \* operands of a statement wait for the end of the table (a name may be declared after its use)
 Count(st) == IF st.stack = <<>> THEN st ELSE [st EXCEPT !.stack[Len(st.stack)].cnt = @ + 1]
-Pend(st, t) == [Count(st) EXCEPT !.pend = @ \o [i \in 1..Len(t.x) |-> [cur |-> Cur(st), x |-> t.x[i], seq |-> st.seq]],
+Pend(st, t) == [Count(st) EXCEPT !.pend = @ \o [i \in 1..Len(t.x) |-> [cur |-> Cur(st), x |-> t.x[i], seq |-> st.seq, deferred |-> (InWhile(st) \/ t.k = "while")]],
                           !.trig = @ \cup TermTriggers(st, t)]
 
 Declare(st, t, kind, args, scoped) ==
@@ -259,7 +279,8 @@ ResolveOperands(ns, late) ==
            r == [o EXCEPT !.args = [i \in 1..Len(o.args) |-> Resolve(ns, Head(late).cur, o.args[i])]]
        IN ResolveOperands((ns \ {o}) \cup {r}, Tail(late))
 BufferSizeNamesBankUnit(st) ==
-  \E i \in 1..Len(st.pend) : \E f \in NamesInBufferSize(st.pend[i].x) : \E e \in st.bankunits :
+  \E i \in 1..Len(st.pend) :
+    \E f \in (IF st.pend[i].deferred THEN NamesIn(st.pend[i].x) ELSE NamesInBufferSize(st.pend[i].x)) : \E e \in st.bankunits :
      e.p = Lookup(st.ns, st.pend[i].cur, f)
 EndTable(st) ==
   LET res == [i \in 1..Len(st.pend) |-> Resolve(st.ns, st.pend[i].cur, st.pend[i].x)]
@@ -286,13 +307,16 @@ Apply0(st, t) ==
          [] t.k = "decl"   -> Declare(st, t, t.kind, t.args, "")
          [] t.k = "field"  -> DeclField(st, t)
          [] t.k = "close"  -> IF st.stack = <<>> THEN Fail(st, <<"close without open">>)
-                              ELSE [st EXCEPT !.stack = Front(@), !.trig = @ \cup (IF EmptyIfBody(st) THEN {"D9"} ELSE {})]
+                              ELSE LET closedBlock == Last(st.stack).t \in {"if", "else", "while"}
+                                       rest == Front(st.stack) IN
+                                   [st EXCEPT !.stack = IF closedBlock /\ rest # <<>> THEN [rest EXCEPT ![Len(rest)].nb = TRUE] ELSE rest,
+                                              !.trig = @ \cup (IF EmptyIfBody(st) THEN {"D9"} ELSE {})]
          [] t.k = "stmt"   -> IF ~InMethod(st) THEN Fail(st, <<"statement outside a method", t>>) ELSE Pend(st, t)
          [] t.k \in {"if", "while"} ->
                               IF ~InMethod(st) THEN Fail(st, <<"statement outside a method", t>>)
                               ELSE Push(Pend(st, t), Cur(st), t.k)
          [] t.k = "else"   -> IF ~InMethod(st) THEN Fail(st, <<"statement outside a method", t>>)
-                              ELSE Push(Count(st), Cur(st), "else")
+                              ELSE Push([Count(st) EXCEPT !.trig = @ \cup (IF InWhile(st) THEN {"D7"} ELSE {})], Cur(st), "else")
          [] t.k = "endtable" -> EndTable(st)
          [] OTHER -> Fail(st, <<"unknown token", t>>)
 
